@@ -27,6 +27,24 @@ def hs(title, prop_clause, extra=""):
 
 PROPS = {
     "C03": hs("No session is established without successful authentication", "for C03 the monitor admits an established envelope only after an Authenticate call for exactly the identity, scheme and credentials of the peer's most recent envelope, under an offered scheme, answered with a known role, followed by a Register call whose node is the one announced; the Established callback only after that."),
+    "C04": {
+        "title": "Established channels deliver every envelope exactly once, intact, in order",
+        "design_ref": "DESIGN.md section 5, C04; section 4 Model D (Pipeline)",
+        "technique": "Coq proof of a conservation invariant over all workloads, buffer sizes, sender counts and schedules (partial: interleaving semantics) + acceptor-checked stress over every transport with a write-overlap monitor",
+        "level_text": "PARTIAL. Machine-checked proof (Coq 8.16.1, no axioms) about the pipeline model - atomic sends appended to a FIFO wire, one receiver moving the head into bounded per-kind buffers (any capacity, zero = hand-off), consumers - for every workload, number of senders, capacity and schedule: per kind, sent = delivered ++ buffered ++ in flight; hence deliveries are a prefix of what was sent in sending order (exactly once, in order, nothing fabricated), everything is delivered at quiescence, and no deadlock while consumers are willing. The atomic-send abstraction itself is monitored: the injected connection asserts that Write calls never overlap and each carries exactly one envelope. Tied to the code on every run by stress over in-process, TCP (injected and loopback), TCP+TLS, WebSocket and secure WebSocket with 1-8 sender goroutines per side, both directions, buffers 0/1/2/64 and consumer delays; the observation is checked inside Coq to be a behaviour the model allows.",
+        "level_note": "Partial: the theorem is about explicit interleavings of atomic steps; it does not exhibit Go memory-model effects (data races on envelopes shared through the in-process transport), TLS/WebSocket framing (library code, seen only through the stress runs) or scheduler behaviour. Schedules in the stress runs are not controlled, so the comparison with the model is an acceptor, not an equality.",
+        "trusted": ["Model D pipeline (coq/Chan/Pipeline.v) abstracts channel.sendToTransport (send mutex + one Write per envelope), receiveFromTransport and the inbound streams"],
+        "assumptions": ["a send is atomic on the wire (monitored on the injected connection)"],
+    },
+    "C05": {
+        "title": "Command responses are matched to their requests",
+        "design_ref": "DESIGN.md section 5, C05; section 4 Model D (CmdTable)",
+        "technique": "Coq proof of an inductive invariant of the pending-command LTS over all request sets (colliding ids), response sequences and schedules + differential correspondence on quiescent and gated histories",
+        "level_text": "Machine-checked proof (Coq 8.16.1, no axioms) about the labelled transition system of processCommand, its deferred cleanup and the response matcher at the granularity of their critical sections, for every set of calls (ids may collide), every response sequence and every schedule: a registered unanswered call keeps its table entry (no disturbance), a call completes only with a response bearing its id, the table is empty once all calls returned, and every response taken from the wire is in exactly one place (stream, matcher, one reply slot). The un-repaired code is refuted by a 10-label schedule (theorem), replayed against the real code with build-tag gates. Tied to the code on every run: quiescent histories (all permutations of responses for up to 3-4 in-flight calls, duplicates, unknown ids, cancellations, late responses, id reuse, both roles, in-process and TCP) and gated histories are executed on real channels; results, response stream and table size are compared with the model's run on the corresponding schedule and with a map-based specification inside Coq.",
+        "level_note": "Trusted: Coq kernel; the LTS (critical sections are atomic: they are mutex-protected in the code); the harness, including its translation of harness actions into LTS schedules, and the gate hooks. Free-running stress is not part of the quick tier.",
+        "trusted": ["Model D command table (coq/Chan/CmdTable.v)", "verif-tagged gate points submit:after-lookup and process:before-cleanup"],
+        "assumptions": ["mutex-protected sections are atomic"],
+    },
     "C07": hs("Server handshake follows the protocol order and fails closed", "for C07 the monitor enforces the stage automaton (offer, confirmation, authentication request, round trips only when the callback asked, established, one finished/failed), the single session id, and that a violating session envelope is answered with failed + reason followed by silence and close; the state-regression guard is never hit."),
     "C08": {
         "title": "Client handshake tolerates any server and reports establishment truthfully",
